@@ -99,3 +99,36 @@ Proof.
   - right. unfold split_foreign. apply andb_true_iff. split; [now apply mem_n_iff|].
     unfold in_unit in Eu. destruct (to_unit_offset u0 y); [discriminate|reflexivity].
 Qed.
+
+(* ------------------------------------------------------------------------------------------ *)
+(* the known class is inhabited: a .dwo section with two units, a variable of the first unit whose DW_AT_type is
+   a DW_FORM_ref_addr reference to a struct of the second unit *)
+Definition sx_var : entry :=
+  {| e_off := 21; e_tag := 52; e_decl := false; e_sites := [ {| s_car := CAttrInfo; s_val := 131 |} ] |}.
+Definition sx_ns : entry := {| e_off := 21; e_tag := 57; e_decl := false; e_sites := [] |}.
+Definition sx_struct : entry := {| e_off := 31; e_tag := 19; e_decl := false; e_sites := [] |}.
+Definition sx_u0 : unitd := {| u_off := 0; u_hdr := 11; u_len := 30; u_kids := [ Node sx_var [] ] |}.
+Definition sx_units : list unitd :=
+  [ sx_u0; {| u_off := 100; u_hdr := 11; u_len := 40; u_kids := [ Node sx_ns [ Node sx_struct [] ] ] |} ].
+
+Lemma sx_wf : wf_offsets sx_units /\ wf_layout sx_units.
+Proof.
+  split.
+  - unfold wf_offsets. cbn. repeat constructor; cbn; intuition discriminate.
+  - split; [cbn; intuition; subst; cbn; discriminate|].
+    intros u e par [[<-|[<-|[]]] Hin]; cbn in Hin;
+      repeat (destruct Hin as [H|Hin]; [inversion H; subst; cbn; split; reflexivity|]); destruct Hin.
+Qed.
+
+Lemma split_dangling_witness :
+  wf_offsets sx_units /\ wf_layout sx_units /\
+  reserved filter_refs true (fun x => x =? 21) sx_units = Ok [21; 121; 131] /\
+  convert_split_filtered filter_refs true (fun x => x =? 21) sx_units = Ok [(21, 11)] /\
+  convert_split_filtered filter_refs false (fun x => x =? 21) sx_units = Ok [(21, 11)] /\
+  In 131 (conv_refs sx_u0 {| s_car := CAttrInfo; s_val := 131 |}) /\
+  split_foreign sx_u0 [21; 121; 131] 131 = true /\
+  convert_all [sx_u0] = Err CInvalidDebugInfoRef.
+Proof.
+  split; [apply sx_wf|]. split; [apply sx_wf|].
+  repeat split; try (vm_compute; reflexivity). cbn. now left.
+Qed.
